@@ -916,7 +916,7 @@ def check_deliveries(plan, world, cl, ctx, prop):
             if m.spec.get("pattern"):
                 # (... which may queue behind a long-poll Fetch on the same connection)
                 grace += 4 * plan["cluster"]["lat"][1] + 2 * plan["cluster"].get("service_time", 0.0) + 0.002 \
-                    + kw["fetch_max_wait_ms"] / 1000
+                    + plan["kw"]["fetch_max_wait_ms"] / 1000
             for d in m.deliveries:
                 lv = [e for e in leaves if e["seq"] < d[0] and e["t"] + grace < tdel.get(d[0], 0)]
                 if not lv:
